@@ -265,6 +265,10 @@ def row_ref(tree, get, t):
     """(value, {occurrence: (derivative, magnitude)}) of a tree at time t; the derivative rules of ref.expr are
     cross-checked against the second implementation in c02space and against a Richardson difference."""
     value = E.ev(tree, get, t)
+    if not (isinstance(value, (int, float)) and math.isfinite(value)) or abs(value) > 1e12:
+        # an evaluation point at which the tree itself is not a finite moderate number (e.g. explosive terminal values
+        # read back from the implementation): nothing can be said about derivatives there
+        raise S.Inadmissible("non-finite or astronomically large value")
     out = {}
     for occ in sorted(E.occurrences(tree)):
         v1, d1 = E.evd(tree, get, occ, t)
@@ -815,14 +819,22 @@ def oracle_stacked(model, pack, pts, rep, refs, terminal):
             kind, lhs, rhs, slot = eq
             reads_terminal = terminal == "first_order" and any(t + s > T for _, s in E.occurrences(rhs))
             if slot is None:
-                resid, d = eq_ref(eq, get, t)
+                try:
+                    resid, d = eq_ref(eq, get, t)
+                except S.Inadmissible:
+                    res.exclude("stacked_terminal_point_inadmissible")
+                    continue
             elif reads_terminal:
                 try:
                     S.check_value(rhs, get, t)
                 except (S.Inadmissible, ValueError, OverflowError, ZeroDivisionError):
                     res.exclude("stacked_terminal_point_inadmissible")
                     continue
-                resid, d = eq_ref(eq, get, t)
+                try:
+                    resid, d = eq_ref(eq, get, t)
+                except S.Inadmissible:
+                    res.exclude("stacked_terminal_point_inadmissible")
+                    continue
             else:
                 tref = refs.tree(slot, ci if ci == c0 else ("p%d" % c0, ci), 0, get, t, check=ci != c0)
                 if tref is None:
@@ -1086,7 +1098,11 @@ def oracle_stacked_seq(model, pack, pts, rep, terminal, plan_case=None, sequence
                         except (S.Inadmissible, ValueError, OverflowError, ZeroDivisionError):
                             res.exclude("stacked_seq_point_inadmissible:" + label)
                             continue
-                    resid, d = eq_ref(eq, get, t)
+                    try:
+                        resid, d = eq_ref(eq, get, t)
+                    except S.Inadmissible:
+                        res.exclude("stacked_seq_point_inadmissible:" + label)
+                        continue
                     rows.append((t, r, eq, resid, d))
             need_fd = terminal == "first_order" and any(t + s > T for t, r, eq, resid, d in rows for _, s in d)
             if need_fd:
